@@ -6,6 +6,7 @@ package main
 // one shared cache as run.go wires it, and (mode fault) the real proxy in front.
 
 import (
+	"bytes"
 	"io"
 	"crypto/md5"
 	"encoding/hex"
@@ -97,6 +98,7 @@ type dohScript struct {
 	status  int
 	body    []byte
 	lastmod string
+	delayMs int // "auto" only
 }
 
 type dohReq struct {
@@ -170,7 +172,10 @@ func (s *dohServer) handler(w http.ResponseWriter, r *http.Request) {
 	fl, _ := w.(http.Flusher)
 	switch sc.kind {
 	case "auto": // the answer is a function of the question bytes alone (e2e mode)
-		_, _ = w.Write(autoAnswer(body))
+		if sc.delayMs > 0 {
+			time.Sleep(time.Duration(sc.delayMs) * time.Millisecond) // keeps requests outstanding long enough to overlap
+		}
+		_, _ = w.Write(autoAnswerP(body, r.URL.Path))
 	case "ok":
 		_, _ = w.Write(sc.body)
 	case "status":
@@ -518,6 +523,21 @@ func resolverHist(r *rng, n int, certDir string) error {
 		t0 := time.Now()
 		var vnow time.Duration // virtual time since t0 (sum of advances)
 		nops := r.rng(4, 24)
+		// every 12th history: one resolver sees several hundred distinct profiles (a large conditional-profile
+		// configuration), all asking the same few questions; no clock moves, the transport may still switch
+		manyProf := h%12 == 7
+		nprof := 4
+		if manyProf {
+			cacheOn = true
+			if w.cache == nil {
+				w.close()
+				if w, err = newRWorld(certDir, true, maxAge, maxTTL); err != nil {
+					return err
+				}
+			}
+			nprof = r.rng(258, 300)
+			nops = nprof + r.rng(20, 40)
+		}
 		useDNS := false
 		type prevQ struct {
 			name       string
@@ -526,7 +546,14 @@ func resolverHist(r *rng, n int, certDir string) error {
 		}
 		var prev []prevQ
 		for i := 0; i < nops; i++ {
-			switch x := r.intn(100); {
+			x := r.intn(100)
+			if manyProf && x < 18 {
+				x = 50
+			}
+			if manyProf && x < 26 && i < nprof {
+				x = 50
+			}
+			switch {
 			case x < 18: // advance the clock
 				dt := time.Duration(r.rng(1, 12)) * time.Second
 				if r.coin(15) {
@@ -555,7 +582,13 @@ func resolverHist(r *rng, n int, certDir string) error {
 					class = 3
 				}
 				forceProf := -1
-				if len(prev) > 0 && r.coin(55) {
+				if manyProf {
+					name, typ, class = names[0], 1, 1
+					if i < nprof {
+						forceProf = i + 4 // p4, p5, ...: each profile once, in order
+					}
+				}
+				if len(prev) > 0 && r.coin(55) && !(manyProf && i < nprof) {
 					// repeat an earlier question (possibly under another profile / letter case)
 					pq := prev[r.intn(len(prev))]
 					name, typ, class = pq.name, pq.typ, pq.class
@@ -576,6 +609,9 @@ func resolverHist(r *rng, n int, certDir string) error {
 				ctx, cancel := context.WithTimeout(context.Background(), 2*time.Second)
 				if !useDNS {
 					pi := r.intn(4)
+					if manyProf {
+						pi = r.intn(nprof + 4)
+					}
 					if forceProf >= 0 {
 						pi = forceProf
 					}
@@ -594,6 +630,10 @@ func resolverHist(r *rng, n int, certDir string) error {
 						if r.coin(30) {
 							// announce a profile change at a virtual time: expressed on the real axis as t0 + (lv - vnow)
 							lv := vnow + time.Duration(r.rng(-40, 40))*time.Second
+							if r.coin(25) {
+								// the upstream's clock and the device's disagree: stamps minutes to hours away from "now", either side
+								lv = vnow + time.Duration(r.rng(-7200, 7200))*time.Second
+							}
 							real := t0.Add(lv - vnow).Truncate(time.Second)
 							// keep clear of the strict/non-strict boundary (sub-second): skip when it would tie with "now"
 							sc.lastmod = real.UTC().Format(time.RFC1123)
@@ -676,7 +716,10 @@ func resolverHist(r *rng, n int, certDir string) error {
 
 // ---------- mode e2e: real proxy + real resolver (DoH over TLS, response cache on), concurrent clients ----------
 // autoAnswer: id and question echoed, one answer record (TTL 600) whose rdata is derived from the question bytes
-func autoAnswer(q []byte) []byte {
+func autoAnswer(q []byte) []byte { return autoAnswerP(q, "") }
+
+// autoAnswerP: the rdata also depends on the request path, i.e. on the profile the query was sent under
+func autoAnswerP(q []byte, path string) []byte {
 	if len(q) < 17 {
 		return q
 	}
@@ -691,7 +734,7 @@ func autoAnswer(q []byte) []byte {
 	b := append([]byte{}, q[:off]...)
 	b[2], b[3] = 0x81, 0x80
 	b[4], b[5], b[6], b[7], b[8], b[9], b[10], b[11] = 0, 1, 0, 1, 0, 0, 0, 0
-	sum := md5.Sum(q[12:off])
+	sum := md5.Sum(append(append([]byte{}, q[12:off]...), path...))
 	typ := q[off-4 : off-2]
 	rd := sum[:4]
 	if typ[1] == 16 {
@@ -710,7 +753,20 @@ func resolverE2E(r *rng, n int, certDir string) error {
 	if err := w.setTransport(false, false); err != nil {
 		return err
 	}
-	w.doh.set(&dohScript{kind: "auto"})
+	w.doh.set(&dohScript{kind: "auto", delayMs: 3})
+	// four profiles, chosen by the client's address (127.0.0.10 .. 127.0.0.13) as a conditional-profile
+	// configuration does; the upstream's answer depends on the profile it was asked under
+	const e2eProfiles = 4
+	profOf := func(ip net.IP) string {
+		if v4 := ip.To4(); v4 != nil && v4[3] >= 10 && int(v4[3]) < 10+e2eProfiles {
+			return fmt.Sprintf("e%d", v4[3]-10)
+		}
+		return "e0"
+	}
+	w.res.DOH.GetProfileURL = func(q query.Query) (string, string) {
+		p := profOf(q.PeerIP)
+		return "https://doh.test/" + p, p
+	}
 	p := proxy.Proxy{Addrs: []string{"127.0.0.1:5301"}, Upstream: w.res, Timeout: 1500 * time.Millisecond, MaxInflightRequests: 64}
 	ctx, cancel := context.WithCancel(context.Background())
 	defer cancel()
@@ -723,20 +779,37 @@ func resolverE2E(r *rng, n int, certDir string) error {
 		q     []byte
 	}
 	serial := 0
+	hot := ""
 	mkq := func(id int) []byte {
 		name := bases[r.intn(len(bases))]
+		if hot != "" && r.coin(50) {
+			name = hot // a name nobody asked before, asked by several clients of this round at once
+		}
 		if r.coin(35) {
 			name = randCase(r, name)
 		}
 		typ := []int{1, 1, 16}[r.intn(3)]
 		return msgSpec{id: id, flags: 0x0100, qs: [][]byte{question(encodeName(name), typ, 1)}}.encode()
 	}
-	emitQ := func(proto string, q []byte, nrep int, rep []byte) {
+	emitQ := func(proto string, prof int, q []byte, nrep int, rep []byte) {
 		serial++
-		exp := autoAnswer(q)
-		emit("e2e", itoa(serial), proto, hx(q), hx(exp), "=>", itoa(nrep), hxo(rep))
+		exp := autoAnswerP(q, fmt.Sprintf("/e%d", prof))
+		// whose answer is it? (the record data identifies the profile it was fetched under)
+		body := rep
+		if proto == "tcp" && len(body) >= 2 {
+			body = body[2:]
+		}
+		saw := "-"
+		for k := 0; k < e2eProfiles; k++ {
+			a := autoAnswerP(q, fmt.Sprintf("/e%d", k))
+			if len(body) == len(a) && len(a) > 12 && bytes.Equal(body[len(q)+10:], a[len(q)+10:]) {
+				saw = itoa(k)
+			}
+		}
+		emit("e2e", itoa(serial), proto, hx(q), hx(exp), itoa(prof), "=>", itoa(nrep), hxo(rep), saw)
 	}
-	for done := 0; done < n; {
+	for round, done := 0, 0; done < n; round++ {
+		hot = fmt.Sprintf("h%d.example.com", round)
 		nudp, ntcp := r.rng(4, 8), r.rng(1, 2)
 		uq := make([][]byte, nudp)
 		for i := range uq {
@@ -750,6 +823,14 @@ func resolverE2E(r *rng, n int, certDir string) error {
 				tq[i] = append(tq[i], mkq(ids+j))
 			}
 		}
+		uprof := make([]int, nudp)
+		for i := range uprof {
+			uprof[i] = r.intn(e2eProfiles)
+		}
+		tprof := make([]int, ntcp)
+		for i := range tprof {
+			tprof[i] = r.intn(e2eProfiles)
+		}
 		ures := make([][][]byte, nudp)
 		tres := make([][]byte, ntcp)
 		var wg sync.WaitGroup
@@ -757,7 +838,7 @@ func resolverE2E(r *rng, n int, certDir string) error {
 			wg.Add(1)
 			go func(i int) {
 				defer wg.Done()
-				ures[i] = udpExchange("127.0.0.1:5301", uq[i], 2500*time.Millisecond, 20*time.Millisecond)
+				ures[i] = udpExchangeFrom(fmt.Sprintf("127.0.0.%d", 10+uprof[i]), "127.0.0.1:5301", uq[i], 2500*time.Millisecond, 20*time.Millisecond)
 			}(i)
 		}
 		for i := range tq {
@@ -768,7 +849,7 @@ func resolverE2E(r *rng, n int, certDir string) error {
 				for _, q := range tq[i] {
 					raw = append(raw, frame(q)...)
 				}
-				tres[i], _ = tcpExchange("127.0.0.1:5301", raw, len(tq[i]), 2500*time.Millisecond, 20*time.Millisecond)
+				tres[i], _ = tcpExchangeFrom(fmt.Sprintf("127.0.0.%d", 10+tprof[i]), "127.0.0.1:5301", raw, len(tq[i]), 2500*time.Millisecond, 20*time.Millisecond)
 			}(i)
 		}
 		wg.Wait()
@@ -777,7 +858,7 @@ func resolverE2E(r *rng, n int, certDir string) error {
 			if len(ures[i]) > 0 {
 				rep = ures[i][0]
 			}
-			emitQ("udp", q, len(ures[i]), rep)
+			emitQ("udp", uprof[i], q, len(ures[i]), rep)
 			done++
 		}
 		for i, qs := range tq {
@@ -803,7 +884,7 @@ func resolverE2E(r *rng, n int, certDir string) error {
 				if len(frames[id]) > 0 {
 					rep = frames[id][0]
 				}
-				emitQ("tcp", q, len(frames[id]), rep)
+				emitQ("tcp", tprof[i], q, len(frames[id]), rep)
 				done++
 			}
 		}
